@@ -8,6 +8,12 @@ pub mod c06;
 pub mod c07;
 pub mod c08;
 pub mod c08b;
+pub mod c09;
+pub mod c10;
+pub mod c11;
+pub mod c15;
+pub mod c17;
+pub mod fmt;
 
 pub fn dispatch(ctx: &Ctx, replay_file: Option<&str>) -> i32 {
     macro_rules! prop {
@@ -29,6 +35,11 @@ pub fn dispatch(ctx: &Ctx, replay_file: Option<&str>) -> i32 {
         "C06" => prop!(c06),
         "C07" => prop!(c07),
         "C08" => prop!(c08),
+        "C09" => prop!(c09),
+        "C10" => prop!(c10),
+        "C11" => prop!(c11),
+        "C15" => prop!(c15),
+        "C17" => prop!(c17),
         other => {
             eprintln!("no check for property {}", other);
             2
